@@ -153,6 +153,19 @@ def run(plan):
                 res.fail("rejected state frame changed state: " + bad[0][0],
                          f"corrupted state frame delivered during a property write: {bad}")
             return
+        if plan.get("ftype") is not None:
+            # the corrupted frame carries another (legal) frame type: report 0x04/0x05, abnormal report 0x06 ...
+            spec["edit"] = [["ftype", plan["ftype"]]] + spec["edit"]
+        if plan.get("embed") and kind == "state":
+            # the valid report is an extended one whose trailing bytes happen to hold the image of a complete,
+            # well-formed frame (another state): corrupting the carrier must not make the image count
+            from refmodel import acmodel
+            img_state = dict(OLD_STATE, power=not OLD_STATE["power"], mode=5, temp=19.0, fan=60, eco=True)
+            ib = acmodel.encode_state(img_state, 24) + b"\x77"
+            ib = codec.body_with_crc(ib)
+            image = codec.frame_build(ib, 0x03)
+            dev.raw_state = (acmodel.encode_state(dev.state, 24) + image, True)
+            w.fire("report_with_embedded_frame_image")
         if kind == "caps":
             dev.caps_pages = [(NEW_CAPS, None)]
             op = {"op": "caps", "net": [{"app": spec}]}
@@ -164,6 +177,7 @@ def run(plan):
             op = {"op": "refresh", "net": net}
         dev.bad_frames = []
         o = await s.do(op)
+        dev.raw_state = None
         if o.kind != "ok":
             w.probe("operation_raised_(C14_domain)")
             return
@@ -238,7 +252,8 @@ def run(plan):
     res.take(w)
     res.add_fired(dev.fired)
     res.exempt = stats["exempt"]
-    res.key = (plan["config"]["version"], kind, tuple(corrupt), bool(plan.get("fresh_first")))
+    res.key = (plan["config"]["version"], kind, tuple(corrupt), bool(plan.get("fresh_first")), plan.get("ftype"),
+               bool(plan.get("embed")), plan.get("place"))
     res.nontrivial = stats["judged"] > 0
     return res
 
@@ -265,9 +280,18 @@ def space(tier):
                 return {"config": cfg(version), "kind": kind, "corrupt": [pos, delta, fixup],
                         "caps_with_extra": rng.random() < 0.3,
                         "fresh_first": kind in ("caps", "state") and rng.random() < 0.3,
+                        "ftype": rng.choice([None, None, None, 0x02, 0x04, 0x05, 0x06, 0x0A]),
                         # several frames in one exchange: the corrupted one twice / twice and then the valid one
                         "place": rng.choice(["alone", "alone", "twice", "bad_bad_good", "many_then_good"]) if kind != "caps" else
                         rng.choice(["alone", "twice"]), "n": rng.choice([7, 8, 9, 16, 33])}
             reps = 2 if tier == "thorough" else 1
             sp.add(f"{label}_{kind}", len(positions) * nvals * reps, fn, exhaustive=(nvals == 255))
+
+    def embedded(j, rng):
+        # every value of the length byte (and of the other header bytes) of a report that embeds a frame image
+        pos = 1 if j < 255 * 2 else rng.randrange(1, 10)
+        delta = (j % 255) + 1
+        return {"config": cfg(2 + (j // 255) % 2), "kind": "state", "corrupt": [pos, delta, False], "embed": True,
+                "place": "alone"}
+    sp.add("embedded_frame_image_all_length_bytes", 255 * 2 + (100 if tier == "quick" else 2000), embedded, exhaustive=True)
     return sp
